@@ -411,6 +411,29 @@ Theorem C04_roundtrip_type10 :
 Proof. exact roundtrip_type10. Qed.
 Print Assumptions C04_roundtrip_type10.
 
+Theorem C04_roundtrip_type12 :
+  forall c q vrepeat vmmsi vseqno vdest vretransmit xspare vchar1 post,
+  in_range (fields12 vrepeat vmmsi vseqno vdest vretransmit xspare vchar1) ->
+  noalloc c = false ->
+  let bs := enc (fields12 vrepeat vmmsi vseqno vdest vretransmit xspare vchar1) ++ post in
+  parse_bits c q bs = Ok (AddressedSafetyRelatedMessage
+  ({| as_message_type := 12; as_repeat_indicator := vrepeat; as_mmsi := vmmsi;
+     as_seqno := vseqno; as_dest_mmsi := vdest; as_retransmit := (vretransmit =? 1);
+     as_text := text_at bs 72 ((length bs - 72) / 6) |})).
+Proof. exact roundtrip_type12. Qed.
+Print Assumptions C04_roundtrip_type12.
+
+Theorem C04_roundtrip_type14 :
+  forall c q vrepeat vmmsi xspare vchar1 post,
+  in_range (fields14 vrepeat vmmsi xspare vchar1) ->
+  noalloc c = false ->
+  let bs := enc (fields14 vrepeat vmmsi xspare vchar1) ++ post in
+  parse_bits c q bs = Ok (SafetyRelatedBroadcastMessage
+  ({| sb_message_type := 14; sb_repeat_indicator := vrepeat; sb_mmsi := vmmsi;
+     sb_text := text_at bs 40 ((length bs - 40) / 6) |})).
+Proof. exact roundtrip_type14. Qed.
+Print Assumptions C04_roundtrip_type14.
+
 Theorem C04_roundtrip_type16 :
   forall c q vrepeat vmmsi xspare vmmsi1 voffset1 vincrement1 vmmsi2 voffset2 vincrement2 post,
   in_range (fields16 vrepeat vmmsi xspare vmmsi1 voffset1 vincrement1 vmmsi2 voffset2 vincrement2) ->
